@@ -4813,6 +4813,13 @@ fn boundary_numbers() -> Vec<(String, String)> {
         ("1e308", big.clone()),
         ("inf", inf.clone()),
         ("denormal", tiny),
+        // decimal texts just below / above 16, 21 and 32 characters (seed C06-c2: a 32-byte format buffer)
+        ("1e15", format!("1{}", "0".repeat(15))),
+        ("1e21", format!("1{}", "0".repeat(21))),
+        ("1e31", format!("1{}", "0".repeat(31))),
+        ("1e32", format!("1{}", "0".repeat(32))),
+        ("ulp", "(0.1 add 0.2 minus 0.3)".to_string()),
+        ("third", "(1 divide 3)".to_string()),
     ] {
         v.push((tag.to_string(), text.clone()));
         v.push((format!("-{tag}"), format!("(minus {text})")));
@@ -4855,7 +4862,8 @@ fn numeric_cases(out: &mut Vec<(String, String)>) {
     for (t, v) in &vals {
         for route in ["literal", "parameter"] {
             let unary = "shout(minus p)\nshout(p.abs())\nshout(p.sqrt())\nshout(p.floor())\nshout(p.ceil())\nshout(p.round())\n\
-                         shout(to_string(p))\nshout(\"<{p}>\")\nshout(typeof(p))\nshout([p, p])\nshout(not (p na p))\n";
+                         shout(to_string(p))\nshout(\"<{p}>\")\nshout(typeof(p))\nshout([p, p])\nshout(not (p na p))\n\
+                         shout(\"s\" add p)\nshout(p add \"s\")\nshout([p, \"x\", p].join(\"-\"))\nshout((\"\" add p).len())\nshout(to_string(p).to_number() na p)\n";
             let sinks: [(&str, &str); 6] = [
                 ("unary", unary),
                 ("index", "make arr get [1, 2]\nshout(arr[p])\n"),
